@@ -99,6 +99,12 @@ Theorem token_table_of_the_code_is_tchar : forall c, is_tchar c = existsb (N.eqb
 Proof. exact istoken_table_is_tchar. Qed.
 Print Assumptions token_table_of_the_code_is_tchar.
 
+(** T-tie: http.NO_BODY_CODES, regenerated from the source on every run, is exactly the set of statuses for which the
+    model sends no body and no framing (204 and 304 - the statuses for which an HTTP/1.1 recipient expects none) *)
+Theorem no_body_codes_of_the_code_are_204_304 : forall c, nobody_code c = existsb (N.eqb c) no_body_codes.
+Proof. exact no_body_codes_is_nobody_code. Qed.
+Print Assumptions no_body_codes_of_the_code_are_204_304.
+
 (** sanitisation: no CR / LF survives in a header value, and no CR / LF / ";" in a cookie component; an accepted
     cookie is free of CR / LF as a whole; sanitising is idempotent *)
 Theorem sanitised_values_cannot_break_lines :
